@@ -114,6 +114,11 @@ func (c *Cluster) storeHook(path, kind, phase string) error {
 			c.killAt(n, kind, phase, 0)
 		}
 	}
+	if n.armBlockPre && kind == "block" && phase == "pre" {
+		n.armBlockPre = false
+		c.stats.probe("crash-before-block-write")
+		c.killAt(n, kind, phase, 0)
+	}
 	if n.armCrashAt > 0 && n.storePoints >= n.armCrashAt {
 		n.armCrashAt = 0
 		torn := n.armTorn
@@ -218,6 +223,17 @@ func (c *Cluster) opCrash(s *Step) {
 		n.armEventRun = maxInt(s.N, 2)
 		return
 	}
+	if s.Kind == "before-block-write" {
+		// directed: the next time this node is about to write a block record (the
+		// first write of a new block, its second write with the commit response,
+		// or the rewrite of an older block whose late signature just arrived in a
+		// stored event)
+		if n.storeKind != "badger" {
+			return
+		}
+		n.armBlockPre = true
+		return
+	}
 	if s.Kind == "at" {
 		if n.storeKind != "badger" {
 			return
@@ -251,6 +267,7 @@ func (c *Cluster) restartFromDisk(n *SimNode) {
 	prevEpoch := n.epoch
 	n.epoch++
 	n.armCrashAt = 0
+	n.armBlockPre = false
 	n.armEventRun = 0
 	n.eventRun = 0
 	c.newSegment(n, -1)
@@ -610,7 +627,7 @@ func (c *Cluster) genCrash(g *genState) *Step {
 	r := c.gen
 	cands := []*SimNode{}
 	for _, n := range c.nodes {
-		if n.running() && !n.ffDone && n.armCrashAt == 0 && n.armEventRun == 0 && (n.task == nil || n.task.done) && n.state() == _state.Babbling {
+		if n.running() && !n.ffDone && n.armCrashAt == 0 && n.armEventRun == 0 && !n.armBlockPre && (n.task == nil || n.task.done) && n.state() == _state.Babbling {
 			cands = append(cands, n)
 		}
 	}
@@ -631,6 +648,9 @@ func (c *Cluster) genCrash(g *genState) *Step {
 	case 1:
 		return &Step{Op: "cleanrestart", A: n.idx}
 	case 2:
+		if r.Bool(0.3) {
+			return &Step{Op: "crash", A: n.idx, Kind: "before-block-write"}
+		}
 		if r.Bool(0.6) {
 			// inside one insertion: after the k-th of several consecutive event
 			// records (the new event, then its ancestors one commit each)
